@@ -18,3 +18,104 @@ Theorem C08_fanout_fault_independent :
     map d_log (fst (fanout m ds)) = map d_log (fst (fanout m ds2)).
 Proof. exact fanout_independent. Qed.
 Print Assumptions C08_fanout_fault_independent.
+
+(* ---- Destinations.send and everything above it (Proofs/OutputProofs.v) ---- *)
+Require Import Eliot.Model.Prog Eliot.Proofs.OutputProofs.
+
+(* with destinations registered, one send offers every one of them the same list: the
+   message (with the global fields) followed by the failure reports *)
+Theorem C08_send_uniform :
+  forall c s m, any_added s = true ->
+  exists reports,
+    map d_log (dests (send c s m)) =
+      map (fun x => x ++ fupdate m (globals s) :: reports) (map d_log (dests s)) /\
+    map d_id (dests (send c s m)) = map d_id (dests s) /\
+    map d_behave (dests (send c s m)) = map d_behave (dests s).
+Proof. exact send_uniform. Qed.
+Print Assumptions C08_send_uniform.
+
+(* exactly one report per destination failing on a non-report message, all recognisable
+   as reports, offered after the message itself *)
+Theorem C08_report_count :
+  forall c s m,
+  any_added s = true -> fget K_mtype (globals s) = None ->
+  is_report (fupdate m (globals s)) = false ->
+  exists reports,
+    ext (fupdate m (globals s) :: reports) s (send c s m) /\
+    length (fupdate m (globals s) :: reports) =
+      1 + length (flat_map (failure_of (fupdate m (globals s))) (dests s)) /\
+    Forall (fun r => is_report r = true) reports.
+Proof. exact OutputProofs.C08_report_count. Qed.
+Print Assumptions C08_report_count.
+
+(* one report per failure, in the order of the failing destinations, each carrying the
+   exception's class name, its safeunicode text and the rendering of the message *)
+Theorem C08_report_content :
+  forall c s m,
+  any_added s = true -> is_report (fupdate m (globals s)) = false ->
+  exists reports,
+    ext (fupdate m (globals s) :: reports) s (send c s m) /\
+    Forall2 (is_report_of (globals s) (fupdate m (globals s)))
+            (flat_map (failure_of (fupdate m (globals s))) (dests s)) reports.
+Proof. exact OutputProofs.C08_report_content. Qed.
+Print Assumptions C08_report_content.
+
+Theorem C08_report_fields :
+  forall g about e r,
+  fget K_mtype g = None -> fget K_exception g = None -> fget K_reason g = None ->
+  fget K_message g = None ->
+  is_report_of g about e r ->
+  fget K_mtype r = Some (VTypeName T_destination_failure) /\
+  fget K_exception r = Some (VClassName (e_cls e)) /\
+  fget K_reason r = Some (safe_str e) /\
+  fget K_message r = Some (render_of about).
+Proof. exact is_report_of_content. Qed.
+Print Assumptions C08_report_fields.
+
+(* failures while delivering a report are not reported *)
+Theorem C08_reports_not_reported :
+  forall c s m,
+  any_added s = true -> is_report (fupdate m (globals s)) = true ->
+  ext [fupdate m (globals s)] s (send c s m).
+Proof. exact OutputProofs.C08_reports_not_reported. Qed.
+Print Assumptions C08_reports_not_reported.
+
+(* every destination, failing or not, is called once for every message of the list *)
+Theorem C08_later_deliveries :
+  forall c s m, any_added s = true ->
+  exists l, ext l s (send c s m) /\
+    map d_calls (dests (send c s m)) = map (fun n => n + length l) (map d_calls (dests s)) /\
+    1 <= length l <= 1 + length (dests s).
+Proof. exact OutputProofs.C08_later_deliveries. Qed.
+Print Assumptions C08_later_deliveries.
+
+(* every operation other than adding/removing destinations offers all registered
+   destinations the same messages *)
+Theorem C08_api_uniform :
+  forall cfg c s o, dest_op o = false -> uniform s (api cfg c s o).
+Proof. exact api_uniform. Qed.
+Print Assumptions C08_api_uniform.
+
+(* over any stretch of operations without add/remove all registered destinations are
+   offered the same sequence l (originals and reports), in the same order *)
+Theorem C08_same_stream :
+  forall cfg ops s,
+  forallb (fun co => negb (dest_op (snd co))) ops = true ->
+  exists l,
+    map d_id (dests (run cfg ops s)) = map d_id (dests s) /\
+    gone (run cfg ops s) = gone s /\
+    forall i d, nth_error (dests s) i = Some d ->
+      exists d', nth_error (dests (run cfg ops s)) i = Some d' /\
+                 d_id d' = d_id d /\ d_behave d' = d_behave d /\
+                 d_log d' = d_log d ++ l /\ d_calls d' = d_calls d + length l.
+Proof. exact OutputProofs.C08_same_stream. Qed.
+Print Assumptions C08_same_stream.
+
+(* the first add replays the buffered messages to all new destinations alike *)
+Theorem C08_first_add_uniform :
+  forall cfg c s ds,
+  any_added s = false ->
+  uniform (set_out s true [] ds (gone s)) (api cfg c s (OAddDests ds)) /\
+  map d_id (dests (api cfg c s (OAddDests ds))) = map d_id ds.
+Proof. exact OutputProofs.C08_first_add_uniform. Qed.
+Print Assumptions C08_first_add_uniform.
